@@ -162,6 +162,9 @@ func (s *SimSub) Send(value interface{}) error {
 		res = "fail"
 	}
 	s.env.Event("Send", strconv.Itoa(s.ID)+"|"+res+"|"+CanonLite(value))
+	// the delivery takes time: the end of the call is an event of its own, so
+	// that a second call into the same subscriber before it shows as an overlap
+	s.env.Event("SendEnd", strconv.Itoa(s.ID))
 	if fail {
 		return ErrSend
 	}
